@@ -1,6 +1,6 @@
 SPEC_PART = dict(
     props_file="C18_freq",
-    legs=[dict(family="freq", focus="size", oracles=["prop_layout"], profiles=["debug"], n_quick=10, n_thorough=60)],
+    legs=[dict(family="freq", focus="size", oracles=["prop_layout"], profiles=["debug"], n_quick=10, n_thorough=24)],
     trusted=[],
     assumptions=[],
     covers="freq: active items <= current capacity <= maximum_map_capacity after every operation of every history (C07's capacity "
